@@ -58,6 +58,12 @@ type ownsFn func(clause string) bool
 type nontrivFn func(model *ref.Result, out *Out) bool
 
 func runSendSpace(w *mc.Worker, sp *sendSpace, owns ownsFn, nontriv nontrivFn) {
+	runSendSpaceU(w, sp, owns, nontriv, nil)
+}
+
+// runSendSpaceU: uvals, if given, is the value domain of the destination-side account
+// variables ($u*), which may include strings outside the account grammar.
+func runSendSpaceU(w *mc.Worker, sp *sendSpace, owns ownsFn, nontriv nontrivFn, uvals []string) {
 	w.Stage(sp.Name, sp.Bounds, func() {
 		w.Outer(sp.Name+"/send", sp.Budget, func(o *mc.Explorer) {
 			mode := sp.Modes[o.Choose(len(sp.Modes))]
@@ -98,7 +104,11 @@ func runSendSpace(w *mc.Worker, sp *sendSpace, owns ownsFn, nontriv nontrivFn) {
 							vars[n] = sp.Asset + " " + sp.CapVals[in.Choose(len(sp.CapVals))].String()
 						}
 					case "account":
-						vars[n] = sp.VarAcctVals[in.Choose(len(sp.VarAcctVals))]
+						if uvals != nil && strings.HasPrefix(n, "u") {
+							vars[n] = uvals[in.Choose(len(uvals))]
+						} else {
+							vars[n] = sp.VarAcctVals[in.Choose(len(sp.VarAcctVals))]
+						}
 					case "portion":
 						vars[n] = sp.PortVals[in.Choose(len(sp.PortVals))]
 					}
@@ -163,6 +173,8 @@ func judgeOne(w *mc.Worker, prog *gen.Program, text string, pr parsedT, vars map
 		sig := f.Clause
 		if f.Clause == "C12.panic" {
 			sig += "@" + out.Where
+		} else if strings.HasPrefix(f.Clause, "C02.empty") || strings.HasPrefix(f.Clause, "C02.kept") {
+			// monitor clauses about account names: the clause is the cause
 		} else {
 			sig += ":" + caseFeatures(prog, in, model)
 		}
